@@ -393,12 +393,11 @@ theorem exclusion_only_narrows (opts : ExtractOptions) (hdr ftr : List Str) (tri
 child in source order, exactly the elements that child stands for (`elemsOfNode`: a
 paragraph, a heading, the items of a list, a table; a wrapper such as `text:section`
 contributes its children's elements in place).
-RESTATED (was: for every list of children): `decodeInlineContentAt` now refuses the 10001st
-level of nested `text:span` / `text:a`; the element it happens in is dropped and the walk ends
-at the end of that paragraph. The statement holds as before when every body element is decoded
+RESTATED (was: for every list of children): `decodeInlineContentAt` refuses the 10001st
+level of nested `text:span` / `text:a`, and `odt.Open` then fails (`odt_body_refused`,
+`C16Bounds.odt_open_beyond`). The statement holds as before when every body element is decoded
 to its end (`decodesList kids`, decidable; by `odt_decodes_iff_depth` it says that no
-paragraph of a body element nests spans deeper than `maxInlineDepth` = 10000); beyond the
-bound see `C16Bounds.odt_gives_up` / `odt_truncated`. -/
+paragraph of a body element nests spans deeper than `maxInlineDepth` = 10000). -/
 theorem odt_body_interleave (defs : List Odt.StyleDef) (ta : List (Str × Str)) (kids : List Node) (acc : List Odt.Elem)
     (hk : Odt.noTextList kids = true) (hdec : Odt.decodesList kids = true) :
     Odt.walkNode defs (.elem Odt.sOfficeText ta kids) { inBody := false, acc := acc } =
@@ -406,17 +405,28 @@ theorem odt_body_interleave (defs : List Odt.StyleDef) (ta : List (Str × Str)) 
   simp only [Odt.walkNode, BEq.rfl, if_true, Bool.false_eq_true, if_false]
   rw [Odt.walk_inside_list defs kids _ rfl rfl hk hdec]
 
-/-- the same from the root of content.xml: `office:text` sits in `office:body`, nothing named
-`office:text` elsewhere (styles, scripts, …). RESTATED with `hdec` as `odt_body_interleave`. -/
-theorem odt_elements_interleave (docTag bodyTag : Str) (da ba ta : List (Str × Str)) (pre kids post : List Node)
+/-- **odt_body_refused**. The other half: when some body element is not decoded to its end the
+walk over `office:text` ends with the depth error (`failed`), whatever stands before or behind
+that element. -/
+theorem odt_body_refused (defs : List Odt.StyleDef) (ta : List (Str × Str)) (kids : List Node) (acc : List Odt.Elem)
+    (hk : Odt.noTextList kids = true) (hdec : Odt.decodesList kids = false) :
+    (Odt.walkNode defs (.elem Odt.sOfficeText ta kids) { inBody := false, acc := acc }).failed = true := by
+  simp only [Odt.walkNode, BEq.rfl, if_true, Bool.false_eq_true, if_false]
+  exact Odt.walk_refuses_list defs kids _ rfl rfl hk hdec
+
+/-- the walk of `parseBodyElements` from the root of content.xml: `office:text` sits in
+`office:body`, nothing named `office:text` elsewhere (styles, scripts, …) -/
+theorem odt_body_walk (docTag bodyTag : Str) (da ba ta : List (Str × Str)) (pre kids post : List Node)
     (styles : Option Node)
     (hdoc : docTag ≠ Odt.sOfficeText) (hbody : bodyTag ≠ Odt.sOfficeText)
-    (hpre : Odt.noTextList pre = true) (hpost : Odt.noTextList post = true) (hk : Odt.noTextList kids = true)
-    (hdec : Odt.decodesList kids = true) :
-    Odt.elements (.elem docTag da (pre ++ [.elem bodyTag ba [.elem Odt.sOfficeText ta kids]] ++ post)) styles =
-      Odt.elemsOfList (Odt.allStyles (.elem docTag da (pre ++ [.elem bodyTag ba [.elem Odt.sOfficeText ta kids]] ++ post)) styles) kids := by
-  unfold Odt.elements
-  generalize Odt.allStyles _ styles = defs
+    (hpre : Odt.noTextList pre = true) :
+    let content : Node := .elem docTag da (pre ++ [.elem bodyTag ba [.elem Odt.sOfficeText ta kids]] ++ post)
+    Odt.bodyWalk content styles =
+      Odt.walkList (Odt.allStyles content styles) post
+        (Odt.walkNode (Odt.allStyles content styles) (.elem Odt.sOfficeText ta kids) { inBody := false, acc := [] }) := by
+  intro content
+  unfold Odt.bodyWalk
+  generalize Odt.allStyles content styles = defs
   have hd : (docTag == Odt.sOfficeText) = false := by
     cases h : docTag == Odt.sOfficeText
     · rfl
@@ -425,14 +435,56 @@ theorem odt_elements_interleave (docTag bodyTag : Str) (da ba ta : List (Str × 
     cases h : bodyTag == Odt.sOfficeText
     · rfl
     · exact absurd (by simpa using h) hbody
+  show Odt.walkNode defs (.elem docTag da (pre ++ [.elem bodyTag ba [.elem Odt.sOfficeText ta kids]] ++ post)) _ = _
   rw [Odt.walkNode]
   simp only [hd, Bool.false_eq_true, if_false, Bool.not_false, if_true]
   rw [Odt.walkList_append, Odt.walkList_append, Odt.walk_outside_list defs pre _ rfl hpre]
   simp only [Odt.walkList]
   rw [Odt.walkNode]
   simp only [hb, Bool.false_eq_true, if_false, Bool.not_false, if_true, Odt.walkList]
-  rw [odt_body_interleave defs ta kids [] hk hdec, Odt.walk_outside_list defs post _ rfl hpost]
+
+/-- the whole walk over a content.xml whose body elements are all decoded to their end: no
+error, and the elements are what the children of `office:text` stand for -/
+theorem odt_body_walk_within (docTag bodyTag : Str) (da ba ta : List (Str × Str)) (pre kids post : List Node)
+    (styles : Option Node)
+    (hdoc : docTag ≠ Odt.sOfficeText) (hbody : bodyTag ≠ Odt.sOfficeText)
+    (hpre : Odt.noTextList pre = true) (hpost : Odt.noTextList post = true) (hk : Odt.noTextList kids = true)
+    (hdec : Odt.decodesList kids = true) :
+    Odt.bodyWalk (.elem docTag da (pre ++ [.elem bodyTag ba [.elem Odt.sOfficeText ta kids]] ++ post)) styles =
+      { inBody := false, failed := false,
+        acc := Odt.elemsOfList (Odt.allStyles (.elem docTag da (pre ++ [.elem bodyTag ba [.elem Odt.sOfficeText ta kids]] ++ post)) styles) kids } := by
+  have := odt_body_walk docTag bodyTag da ba ta pre kids post styles hdoc hbody hpre
+  simp only at this
+  rw [this, odt_body_interleave _ ta kids [] hk hdec, Odt.walk_outside_list _ post _ rfl hpost]
   simp
+
+/-- **odt_elements_interleave**: the same from the root of content.xml. RESTATED with `hdec` as
+`odt_body_interleave`. -/
+theorem odt_elements_interleave (docTag bodyTag : Str) (da ba ta : List (Str × Str)) (pre kids post : List Node)
+    (styles : Option Node)
+    (hdoc : docTag ≠ Odt.sOfficeText) (hbody : bodyTag ≠ Odt.sOfficeText)
+    (hpre : Odt.noTextList pre = true) (hpost : Odt.noTextList post = true) (hk : Odt.noTextList kids = true)
+    (hdec : Odt.decodesList kids = true) :
+    Odt.elements (.elem docTag da (pre ++ [.elem bodyTag ba [.elem Odt.sOfficeText ta kids]] ++ post)) styles =
+      Odt.elemsOfList (Odt.allStyles (.elem docTag da (pre ++ [.elem bodyTag ba [.elem Odt.sOfficeText ta kids]] ++ post)) styles) kids := by
+  unfold Odt.elements
+  rw [odt_body_walk_within docTag bodyTag da ba ta pre kids post styles hdoc hbody hpre hpost hk hdec]
+
+/-- … and when some body element is not decoded to its end, the walk over content.xml ends with
+the depth error, whatever follows the body -/
+theorem odt_elements_refused (docTag bodyTag : Str) (da ba ta : List (Str × Str)) (pre kids post : List Node)
+    (styles : Option Node)
+    (hdoc : docTag ≠ Odt.sOfficeText) (hbody : bodyTag ≠ Odt.sOfficeText)
+    (hpre : Odt.noTextList pre = true) (hk : Odt.noTextList kids = true)
+    (hdec : Odt.decodesList kids = false) :
+    (Odt.bodyWalk (.elem docTag da (pre ++ [.elem bodyTag ba [.elem Odt.sOfficeText ta kids]] ++ post)) styles).failed = true := by
+  have := odt_body_walk docTag bodyTag da ba ta pre kids post styles hdoc hbody hpre
+  simp only at this
+  rw [this]
+  have hf := odt_body_refused (Odt.allStyles (.elem docTag da (pre ++ [.elem bodyTag ba [.elem Odt.sOfficeText ta kids]] ++ post)) styles)
+    ta kids [] hk hdec
+  rw [Odt.walk_failed_list _ post _ hf]
+  exact hf
 
 /-- **table_grid** (ODT). Expanding row spans only inserts blank covered placeholders: in every
 row the cells `limitTableGrid` left (text = paragraphs joined in order, column/row span as
